@@ -13,8 +13,8 @@ Model of the capture-group bookkeeping of dlclark/regexp2:
 Input: the group-opening events of a pattern in the order of their opening parentheses.  Go maps
 are association lists in insertion order; `Code.Caps` (number ↦ dense slot) is the list `l` standing
 for `l[i] ↦ i`.  Numbers are unbounded `Nat` (the `math.MaxInt32` special case of `noteCaptureSlot`
-and the `int` overflow of `GroupNumberFromName` are outside the model).  The model describes the
-code as it is, including what `design.d/C17.md` lists as suspected defects.
+is outside the model).  The model describes the code as it is after the fixes 2bf8733, 9af4686,
+4181360, 14b4ba0, 4579bd8 of /repo (design.d/C17.md, "findings, fixed").
 -/
 namespace RegexVerif.Groups
 
@@ -25,7 +25,8 @@ inductive Event where
   | named (name : String)
   /-- `(?<k> … )` with `k` written without a leading zero -/
   | numbered (k : Nat)
-  /-- `(?<0k> … )`: a number written with a leading zero, which the pre-scan does not see -/
+  /-- `(?<0k> … )`: the same number written with leading zeros (a separate event kind because the
+      code used to treat it differently; since 14b4ba0 the pre-scan reserves it like `numbered k`) -/
   | numbered0 (k : Nat)
   /-- `(?: … )` and every other non-capturing construct -/
   | noncap
@@ -108,7 +109,10 @@ def scanEvent (cfg : Cfg) (s : PState) : Event → Option PState
     if cfg.ecma then some s          -- a digit does not start an ECMAScript group name: nothing noted
     else if cfg.ord then noteName cfg (itoa k) s
     else some (noteSlot k s)
-  | .numbered0 _ => some s           -- `ch != '0'` guard: nothing noted
+  | .numbered0 k =>                  -- `(ch != '0' || !useOptionE)`: scanDecimal drops the zeros
+    if cfg.ecma then some s
+    else if cfg.ord then noteName cfg (itoa k) s
+    else some (noteSlot k s)
   | .named name => noteName cfg name s
 
 def scanEvents (cfg : Cfg) : List Event → PState → Option PState
@@ -219,6 +223,14 @@ def countCaptures (cfg : Cfg) (evs : List Event) : Option Tables :=
 
 /-! ### the main parse: the number every group captures into -/
 
+/-- the digit branch of `scanGroupOpen`: the capture number of `(?<k>…)`.  `none` = parse error
+    (`ErrInvalidECMAGroupName`, `ErrCapNumNotZero`, `ErrUnrecognizedGrouping`).  In pattern-order
+    mode the pre-scan booked the group under the name `Itoa(k)`: it captures into that slot. -/
+def explicitNumber (cfg : Cfg) (t : Tables) (k : Nat) : Option Nat :=
+  if cfg.ecma || k = 0 then none
+  else if cfg.ord then t.capnames.bind (fun cn => cn.lookup (itoa k))
+  else if k ∈ t.caps then some k else none
+
 /-- `scanGroupOpen` for the events in order; `a` is `autocap`.  `none` = parse error
     (`ErrUnrecognizedGrouping`, `ErrCapNumNotZero`, `ErrInvalidECMAGroupName`). -/
 def groupNumbers (cfg : Cfg) (t : Tables) : List Event → Nat → Option (List (Option Nat))
@@ -232,11 +244,13 @@ def groupNumbers (cfg : Cfg) (t : Tables) : List Event → Nat → Option (List 
     | some k => (groupNumbers cfg t es (if cfg.ord && k = a then a + 1 else a)).map (some k :: ·)
     | none => none
   | .numbered k :: es, a =>
-    if cfg.ecma || k = 0 || !(k ∈ t.caps) then none
-    else (groupNumbers cfg t es (if cfg.ord && k = a then a + 1 else a)).map (some k :: ·)
+    match explicitNumber cfg t k with
+    | some c => (groupNumbers cfg t es (if cfg.ord && c = a then a + 1 else a)).map (some c :: ·)
+    | none => none
   | .numbered0 k :: es, a =>
-    if cfg.ecma || k = 0 || !(k ∈ t.caps) then none
-    else (groupNumbers cfg t es (if cfg.ord && k = a then a + 1 else a)).map (some k :: ·)
+    match explicitNumber cfg t k with
+    | some c => (groupNumbers cfg t es (if cfg.ord && c = a then a + 1 else a)).map (some c :: ·)
+    | none => none
 
 /-! ### writer and the compiled regexp -/
 
@@ -308,26 +322,33 @@ def groupNumberFromName (m : Maps) (name : String) : Option Nat :=
   match m.capnames with
   | some cn => cn.lookup name
   | none =>
-    if name.toList.all Char.isDigit then
+    -- the decimal string of a group number: not empty, no leading zero, digits only, in range
+    -- (the early `result >= capsize` exit of the loop answers as the final range check does)
+    if name = "" || (name.length > 1 && name.front = '0') then none
+    else if name.toList.all Char.isDigit then
       let r := Nat.ofDigitChars 10 name.toList 0
       if r < m.capsize then some r else none
     else none
 
 /-- `Match.GroupByNumber`: the dense slot it returns (`none` = nil) -/
 def groupByNumberSlot (m : Maps) (num : Nat) : Option Nat :=
-  let num' := match m.codeCaps with
-    | some l => (idxOf? num l).getD num     -- a number missing from the sparse map is used as it is
-    | none => num
-  if num' < m.capsize then some num' else none
+  match m.codeCaps with
+  | some l => idxOf? num l                -- a number missing from the sparse map: nil
+  | none => if num < m.capsize then some num else none
 
 /-- `Match.GroupByName` -/
 def groupByNameSlot (m : Maps) (name : String) : Option Nat :=
   (groupNumberFromName m name).bind (groupByNumberSlot m)
 
-/-- `Group.Name` of `Match.Groups()[s]`: `populateOtherGroups` asks `GroupNameFromNumber(s)` with the
-    dense slot `s` -/
+/-- `Regexp.groupNameFromSlot` -/
+def groupNameFromSlot (m : Maps) (s : Nat) : String :=
+  match m.caplist with
+  | none => if s < m.capsize then itoa s else ""
+  | some cl => cl.getD s ""
+
+/-- `Group.Name` of `Match.Groups()[s]` (`newMatch` for group 0, `populateOtherGroups` for the rest) -/
 def groupsName (m : Maps) (s : Nat) : String :=
-  if s = 0 then (if m.ecma then "" else "0") else groupNameFromNumber m s
+  if s = 0 then (if m.ecma then "" else "0") else groupNameFromSlot m s
 
 /-- `\N` / `\k<N>`: `isCaptureSlot` on the parser's table, then `mapCapnum` -/
 def backrefSlot (m : Maps) (n : Nat) : Option Nat :=
